@@ -340,8 +340,10 @@ def rand_double(r):
 
 # ------------------------------------------------------------------------------- region suite
 
-def rand_coord(r):
+def rand_coord(r, special=0.0):
     k = r.random()
+    if special and r.random() < special:
+        return r.choice([float("nan"), float("inf"), float("-inf")])
     if k < 0.6:
         return float(r.randint(-4, 12)) * r.choice([1.0, 0.5, 2.5])
     if k < 0.8:
@@ -351,10 +353,12 @@ def rand_coord(r):
     return r.choice([3.0, 4.0, 5.0, 6.0, 8.0, 10.0, 12.0, 13.0])
 
 
-def rand_region_spec(r, ident="a"):
+def rand_region_spec(r, ident="a", special=0.0):
     if r.random() < 0.5:
-        return ("R", ident, rand_coord(r), rand_coord(r), rand_coord(r), rand_coord(r))
-    return ("C", ident, rand_coord(r), rand_coord(r), abs(rand_coord(r)) if r.random() < 0.9 else -1.0)
+        return ("R", ident, rand_coord(r, special), rand_coord(r, special), rand_coord(r, special),
+                rand_coord(r, special))
+    return ("C", ident, rand_coord(r, special), rand_coord(r, special),
+            abs(rand_coord(r, special)) if r.random() < 0.9 else -1.0)
 
 
 def region_words(spec):
@@ -381,6 +385,20 @@ def region_case(r):
         steps.append(Step("contains %s %s %s" % (impl.hexf(x), impl.hexf(y), region_words(a)), 1,
                           eq([exp]), label="contains (%r,%r) %r" % (x, y, a)))
     b = rand_region_spec(r, "b")
+    if r.random() < 0.08:
+        # non-finite geometry (legal JSON input): every comparison with NaN is false
+        a2 = rand_region_spec(r, "a", 0.4)
+        b2 = rand_region_spec(r, "b", 0.4)
+        if r.random() < 0.5 and a[0] == "R":
+            # a NaN edge on an otherwise covering rectangle
+            x1, x2 = sorted((a[2], a[4])); y1, y2 = sorted((a[3], a[5]))
+            a2 = ("R", "a", x1 - 1, y1 - 1, float("nan"), y2 + 1)
+            b2 = ("R", "b", x1, y1, x2, y2)
+        ra2, rb2 = impl.make_region(a2), impl.make_region(b2)
+        exp2 = ["ok %d" % (1 if ra2.containsRegion(rb2) else 0),
+                "rg " + ",".join(impl.region_digest(x) for x in (ra2, rb2))]
+        steps.append(Step("containsregion %s / %s" % (region_words(a2), region_words(b2)), 2, eq(exp2),
+                          label="containsRegion %r %r" % (a2, b2)))
     if r.random() < 0.4:
         # nested / touching by construction
         if a[0] == "R":
@@ -745,11 +763,17 @@ def gen_plugin_case(r):
             else:
                 data = {"type": "CircularRegion", "cx": rand_coord(r), "cy": rand_coord(r),
                         "r": abs(rand_coord(r))}
-                if r.random() < 0.5:
-                    data.update({"cx": 15.0, "cy": 15.0, "r": r.choice([5.0, 7.0, 7.08, 8.0, 3.0])})
+                if r.random() < 0.6:
+                    data.update({"cx": r.choice([15.0, 15.0, 13.0, 17.0]), "cy": r.choice([15.0, 15.0, 13.0, 17.0]),
+                                 "r": r.choice([5.0, 7.0, 7.08, 7.7, 8.0, 9.0, 10.0, 3.0])})
+            if r.random() < 0.04:
+                data[r.choice([k2 for k2 in data if k2 != "type"])] = float("nan")
             if kind < 0.4:
                 if rid is not None:
                     data["id"] = rid
+                prev_adds = [o for o in ops if o[0] == "api" and o[2] == "addExcludeRegion" and "id" in o[3]]
+                if prev_adds and r.random() < 0.2:
+                    data = dict(r.choice(prev_adds)[3])      # a client retry: the very same request again
                 ops.append(("api", anon, "addExcludeRegion", data))
             elif kind < 0.75:
                 data["id"] = r.choice(ids + ["nope"])
